@@ -3,7 +3,7 @@
    independent of the list plumbing (concat / chunk / flat_map / map2) of the model. *)
 From Coq Require Import List ZArith Bool Arith Lia Reals Lra Psatz.
 From Flocq Require Import Core.Raux.
-From Inferno Require Import Base.Num Base.NumR C05.Conn C05.ConnSpec.
+From Inferno Require Import Base.Num Base.NumR Gen.Conv C05.Conn C05.ConnSpec.
 Import ListNotations.
 Open Scope R_scope.
 
@@ -449,7 +449,7 @@ Qed.
 Theorem outsz_code_spec size p d k s :
   (0 < s)%Z -> outsz_code RN size p d k s = ((size + 2 * p - d * (k - 1) - 1) / s + 1)%Z.
 Proof.
-  intros Hs. unfold outsz_code. rn_simpl.
+  intros Hs. unfold outsz_code, conv_outsize. rn_simpl.
   set (n := (size + 2 * p - d * (k - 1) - 1)%Z).
   apply Zfloor_imp.
   assert (Hs' : 0 < IZR s) by (apply IZR_lt; exact Hs).
